@@ -1,0 +1,6 @@
+//go:build !verif
+
+package promapi
+
+// verifTrace is a no-op unless the verif build tag is set.
+func verifTrace(string, string, uint64) {}
